@@ -137,41 +137,6 @@ Definition api_xdel (ds : list db) (i : Z) (k : bytes) (id : sid) : option (list
 (** the file order of a loaded dataset: keys were inserted at the head *)
 Definition rev_db (d : db) : db := {| d_data := frev (d_data d); d_index := d_index d |}.
 
-(** the decidable guard of the round-trip theorem (Proofs/RdbFacts.v proves
-    [rt_guard ...= true -> load (save ds) = ...]); used here only to decide whether the
-    writer tie of ISAVE is expected to hold *)
-Definition lt32 (n : Z) : bool := n <? two32.
-Definition str_ok (b : bytes) : bool := lt32 (len b).
-(** a sorted set that the skip list can hold without duplicated nodes: re-inserting its
-    items one by one reproduces it *)
-Fixpoint zlist_eqb (a b : list (bytes * Z)) : bool :=
-  match a, b with
-  | [], [] => true
-  | (m, s) :: a', (m', s') :: b' => beq m m' && (s =? s') && zlist_eqb a' b'
-  | _, _ => false
-  end.
-Definition zs_canonical (z : list (bytes * Z)) : bool :=
-  zlist_eqb (fold_left (fun acc p => zs_insert (fst p) (snd p) acc) z []) z.
-Definition value_ok (v : value) : bool :=
-  match v with
-  | VStr b => str_ok b
-  | VList l => lt32 (len l) && forallb str_ok l
-               && match l with [] => false | h :: _ => negb (beq h marker) end
-  | VSet s => lt32 (len s) && forallb str_ok s
-  | VHash h => lt32 (len h) && forallb (fun p => str_ok (fst p) && str_ok (snd p)) h
-  | VZSet z => lt32 (len z) && forallb (fun p => str_ok (fst p)) z && negb (len z =? 0) && zs_canonical z
-  | VStream s => lt32 (stream_items (s_entries s)) && negb (len (s_entries s) =? 0)
-                 && forallb (fun e => negb (len (snd e) =? 0)
-                                      && forallb (fun p => str_ok (fst p) && str_ok (snd p)) (snd e)) (s_entries s)
-  end.
-Definition tie_guard (t wall : Z) (ds : list db) : bool :=
-  forallb (fun d => lt32 (len (d_data d))
-                    && forallb (fun ke => str_ok (fst ke) && value_ok (e_val (snd ke))
-                                          && negb (expired t (snd ke))
-                                          && match e_exp (snd ke) with
-                                             | Some dl => wall + (dl - t) <? two64
-                                             | None => true end) (d_data d)) ds.
-
 (** ---- the corruption sweep ---- *)
 Fixpoint set_byte (l : bytes) (p : nat) (v : Z) : bytes :=
   match l, p with
@@ -278,7 +243,7 @@ Definition rdb_op (s : mst) (op : list tok) : list tok * mst :=
             if (0 <? chk) && save_panics t wall ds then ([TI 2; TI 1], s)
             else
               let tie :=
-                if tie_guard t wall ds then
+                if rt_guard t wall wall ds && forallb (fun d => forallb (fun ke => negb (expired t (snd ke))) (d_data d)) ds then
                   match load (0 <? chk) t wall b with
                   | (LOk, ds', _) =>
                       let (ver, ctime) := aux_of b in
